@@ -40,7 +40,7 @@ def gen_cases(tier, seed):
     for l in range(0, maxall + 1):
         for t in itertools.product("LGS", repeat=l):
             cases.append({"kinds": "".join(t), "sseed": rng.randrange(1 << 48), "kind": "allorders"})
-    nrand = {"quick": 30, "search": 150, "thorough": 400}[tier]
+    nrand = {"quick": 30, "search": 150, "thorough": 250}[tier]
     for _ in range(nrand):
         l = rng.choice([3, 3, 4, 5, 6])
         cases.append({"kinds": "".join(rng.choice("LLGGSST") for _ in range(l)), "sseed": rng.randrange(1 << 48), "kind": "random"})
